@@ -256,3 +256,31 @@ harness(prop="C05", target="geckolib.driver.protocol.unhandled:GeckoUnhandledPro
         name="unclaimed_discard_never_takes_a_fresh_datagram")(c07_dispatch.unhandled_discards_only_after_a_full_yield)
 harness(prop="C05", target="geckolib.driver.udp_protocol_handler:GeckoUdpProtocolHandler.consume", loops=["consume_loop"],
         name="partial_consumer_takes_each_datagram_once")(c07_dispatch.consumer_takes_only_what_it_accepts)
+
+
+# applying a change walks every item of the structure (status_block_changed -> _get_value): the decode of every item shape is
+# total -- a value outside an enum's label list reads 'Unknown', it never raises and so never aborts the apply loop (shared with C11)
+def _register_decode_totality():
+    from contracts import c11_facade
+    harness(prop="C05", cases="c02_all_nontemp_shapes", cases_quick="c02_shape_kinds", target="geckolib.driver.accessor:GeckoStructAccessor._get_value",
+            name="applying_a_change_never_raises_in_an_item_decode")(c11_facade.decode_contract_matches_the_code)
+
+
+_register_decode_totality()
+
+
+@harness(prop="C05", target="geckolib.driver.protocol.statusblock:GeckoAsyncPartialStatusBlockProtocolHandler.async_handle",
+         loops=["async_decode_loop"], name="each_acknowledgement_goes_back_to_the_sender_of_its_message")
+async def each_acknowledgement_goes_back_to_the_sender_of_its_message(m1: bytes, m2: bytes, id1: bytes, id2: bytes):
+    """the long-lived async handler, two messages from two different identifier pairs: every acknowledgement is addressed to the
+    sender of the message it acknowledges (nothing is remembered from the first sender)"""
+    requires(both(well_formed(m1), well_formed(m2)))
+    sock = AckSocket()
+    h = GeckoAsyncPartialStatusBlockProtocolHandler(sock)
+    s1 = ("10.0.0.9", 10022, id1, b"IOSa")
+    s2 = ("10.0.0.7", 10022, id2, b"IOSb")
+    await h.async_handle(m1, s1)
+    await h.async_handle(m2, s2)
+    ensures("one-acknowledgement-per-message", len(sock.sent) == 2)
+    ensures("first-acknowledgement-addressed-to-the-first-sender", sock.sent[0][0].parms == s1)
+    ensures("second-acknowledgement-addressed-to-the-second-sender", sock.sent[1][0].parms == s2)
